@@ -170,6 +170,7 @@ type vfSim struct {
 	logs        map[string]*vfsLogModel // consumer side: "topic/part" -> stored units
 	fetchRounds int64                   // atomic: fetch-part answers produced (load-independent progress unit)
 	lastFetchOff map[string]int64       // newest fetch offset seen per "fetch/topic/part"
+	dataRounds   map[string]int64       // per "fetch/topic/part": fault-free fetch answers that carried data
 }
 
 type vfMetaServed struct {
@@ -336,6 +337,12 @@ func (s *vfSim) awaitOcc(key string, n int, timeout time.Duration) bool {
 		t.Stop()
 	}
 	return true
+}
+
+func (s *vfSim) dataRoundsOf(key string) int64 {
+	s.mu.Lock()
+	defer s.mu.Unlock()
+	return s.dataRounds[key]
 }
 
 func (s *vfSim) fetchOffsetOf(key string) int64 {
